@@ -123,7 +123,7 @@ impl Check for C08 {
         "fault_enumeration"
     }
     fn rule(&self) -> String {
-        "for each attack configuration (n in {2,3}; corrupted evaluator or garbler; honest victims in both roles) an honest reference run is recorded; then one fault per simulated run is injected into the corrupted party's outgoing traffic: every message index x every mutation class (empty, truncations, appended junk, same-length random, bit flip, byte overwrite, structure-aware on the decoded value tree: bool flip, invalid bool byte, 128-bit xor, option Some<->None, element count +-1 / 0 at every nesting level with consistent prefix, inconsistent length prefixes 2^20 / 2^40 / 2^63 / 2^64-1), duplicate, replace-by-earlier, drop, swap-with-next (scripted adversary: positional replay of the reference, victim sees a bit-identical prefix and every later message), and crash after every k-th message (live adversary). n=3 configurations take a seeded third of the sites in quick. Oracle: every honest task reaches Ok/Err, no poll panics, no honest party waits once all its peers terminated, steps <= 50x honest, allocation peak <= honest peak + 16 MiB + 64 x bytes received and no single request above 256 MiB. evaluations = attacked runs; distinct = (configuration, message index, mutation) triples whose fault actually fired".into()
+        "for each attack configuration (n in {2,3}; corrupted evaluator or garbler; honest victims in both roles) an honest reference run is recorded; then one fault per simulated run is injected into the corrupted party's outgoing traffic: every message index x every mutation class (empty, truncations, appended junk, same-length random, bit flip, byte overwrite, structure-aware on the decoded value tree: bool flip, invalid bool byte, 128-bit xor, option Some<->None, element count +-1 / 0 at every nesting level with consistent prefix, inconsistent length prefixes 2^20 / 2^40 / 2^63 / 2^64-1), all byte vectors of a message emptied / cut to one byte at once, duplicate, replace-by-earlier, drop, swap-with-next (scripted adversary: positional replay of the reference, victim sees a bit-identical prefix and every later message), a seeded swarm of runs with 2-4 random structure-aware edits, and crash after every k-th message (live adversary). n=3 configurations take a seeded third of the sites in quick. Oracle: every honest task reaches Ok/Err, no poll panics, no honest party waits once all its peers terminated, steps <= 50x honest, allocation peak <= honest peak + 16 MiB + 64 x bytes received and no single request above 256 MiB. evaluations = attacked runs; distinct = (configuration, message index, mutation) triples whose fault actually fired".into()
     }
     fn assumptions(&self) -> Vec<String> {
         vec![
